@@ -160,5 +160,4 @@ def expr(c):
 
 
 K.FAMILIES["land"] = (gen_case, run_impl, expr)
-if "LandV" not in K.HEADER:
-    K.HEADER = K.HEADER.replace(" Run.", " LandV Run.")
+K.add_imports("Distrib", "Kinds", "TimeArea", "Boundary", "LandV")
